@@ -216,7 +216,7 @@ def parsePadded : Nat → Bytes → Option (List PSeg)
           match rest with
           | p :: a :: b2 :: r => if p == 0 then (parsePadded fuel r).map (PSeg.logical ty (a.toNat + 256 * b2.toNat) :: ·) else none
           | _ => none
-        else if fmt == 3 then
+        else if fmt == 2 then
           match rest with
           | p :: a :: b2 :: c :: d :: r =>
               if p == 0 then (parsePadded fuel r).map
